@@ -612,13 +612,13 @@ fn c06_case(cl: Option<&'static str>, te: Option<&'static str>) {
 //@ props: C06
 //@ tier: quick
 //@ unwind: 5
-//@ unwindset: memchr=22 memrchr=22 memcmp=22 from_ascii_bytes_radix=22 from_str_radix=22 compare_lowercase_ascii=9 trim=16 next_match=16 c06_case=4
+//@ unwindset: memchr=22 memrchr=22 memcmp=22 from_ascii_bytes_radix=22 from_str_radix=22 compare_lowercase_ascii=9 trim=16 next_match=16 c06_case=4 c06_parse_u64=22
 //@ timeout: 900
 //@ encodes: BodyReader::for_response, BodyReader::header_defined, util::compare_lowercase_ascii, str::split/trim/parse::<u64>
 //@ vars: symbolic: response version 1.0/1.1, request method (9 standard), status 100..=999. Concrete per harness (one harness per menu cell): Content-Length in {absent, 0, 7, 18446744073709551615, 18446744073709551616, x, -1, " 7"} x Transfer-Encoding in {absent, chunked, Chunked, "gzip, chunked", "gzip,chunked ", gzip, chunkedx}
-//@ bounds: the 8 x 7 header menu (12 cells in the quick tier, all 56 in the thorough tier); full status / method / version ranges in every cell
+//@ bounds: the 8 x 7 header menu (all 56 cells in both tiers); full status / method / version ranges in every cell
 //@ outside: header strings outside the menu; several Content-Length / Transfer-Encoding fields (the lookup returns the first)
-//@ clause: no body for HEAD, 2xx to CONNECT, 1xx, 204, 304; else chunked iff HTTP/1.1 and the last... a listed coding is chunked (over Content-Length); else exactly Content-Length; else close-delimited, except 3xx (not 304) without framing header: no body; non-numeric Content-Length is an error
+//@ clause: no body for HEAD, 2xx to CONNECT, 1xx, 204, 304; else chunked iff HTTP/1.1 and a listed transfer coding is chunked (over Content-Length); else exactly Content-Length; else close-delimited, except 3xx (not 304) without framing header: no body; non-numeric Content-Length is an error
 #[kani::proof]
 fn c06_cell_cl_absent_te_absent() {
     c06_case(None, None);
@@ -646,21 +646,21 @@ fn c06_cell_cl_absent_te_list() {
 }
 
 //@ like: c06_cell_cl_absent_te_absent
-//@ tier: thorough
+//@ tier: quick
 #[kani::proof]
 fn c06_cell_cl_absent_te_listspace() {
     c06_case(None, Some("gzip,chunked "));
 }
 
 //@ like: c06_cell_cl_absent_te_absent
-//@ tier: thorough
+//@ tier: quick
 #[kani::proof]
 fn c06_cell_cl_absent_te_gzip() {
     c06_case(None, Some("gzip"));
 }
 
 //@ like: c06_cell_cl_absent_te_absent
-//@ tier: thorough
+//@ tier: quick
 #[kani::proof]
 fn c06_cell_cl_absent_te_chunkedx() {
     c06_case(None, Some("chunkedx"));
@@ -674,42 +674,42 @@ fn c06_cell_cl_0_te_absent() {
 }
 
 //@ like: c06_cell_cl_absent_te_absent
-//@ tier: thorough
+//@ tier: quick
 #[kani::proof]
 fn c06_cell_cl_0_te_chunked() {
     c06_case(Some("0"), Some("chunked"));
 }
 
 //@ like: c06_cell_cl_absent_te_absent
-//@ tier: thorough
+//@ tier: quick
 #[kani::proof]
 fn c06_cell_cl_0_te_mixedcase() {
     c06_case(Some("0"), Some("Chunked"));
 }
 
 //@ like: c06_cell_cl_absent_te_absent
-//@ tier: thorough
+//@ tier: quick
 #[kani::proof]
 fn c06_cell_cl_0_te_list() {
     c06_case(Some("0"), Some("gzip, chunked"));
 }
 
 //@ like: c06_cell_cl_absent_te_absent
-//@ tier: thorough
+//@ tier: quick
 #[kani::proof]
 fn c06_cell_cl_0_te_listspace() {
     c06_case(Some("0"), Some("gzip,chunked "));
 }
 
 //@ like: c06_cell_cl_absent_te_absent
-//@ tier: thorough
+//@ tier: quick
 #[kani::proof]
 fn c06_cell_cl_0_te_gzip() {
     c06_case(Some("0"), Some("gzip"));
 }
 
 //@ like: c06_cell_cl_absent_te_absent
-//@ tier: thorough
+//@ tier: quick
 #[kani::proof]
 fn c06_cell_cl_0_te_chunkedx() {
     c06_case(Some("0"), Some("chunkedx"));
@@ -730,21 +730,21 @@ fn c06_cell_cl_7_te_chunked() {
 }
 
 //@ like: c06_cell_cl_absent_te_absent
-//@ tier: thorough
+//@ tier: quick
 #[kani::proof]
 fn c06_cell_cl_7_te_mixedcase() {
     c06_case(Some("7"), Some("Chunked"));
 }
 
 //@ like: c06_cell_cl_absent_te_absent
-//@ tier: thorough
+//@ tier: quick
 #[kani::proof]
 fn c06_cell_cl_7_te_list() {
     c06_case(Some("7"), Some("gzip, chunked"));
 }
 
 //@ like: c06_cell_cl_absent_te_absent
-//@ tier: thorough
+//@ tier: quick
 #[kani::proof]
 fn c06_cell_cl_7_te_listspace() {
     c06_case(Some("7"), Some("gzip,chunked "));
@@ -758,7 +758,7 @@ fn c06_cell_cl_7_te_gzip() {
 }
 
 //@ like: c06_cell_cl_absent_te_absent
-//@ tier: thorough
+//@ tier: quick
 #[kani::proof]
 fn c06_cell_cl_7_te_chunkedx() {
     c06_case(Some("7"), Some("chunkedx"));
@@ -772,42 +772,42 @@ fn c06_cell_cl_max_te_absent() {
 }
 
 //@ like: c06_cell_cl_absent_te_absent
-//@ tier: thorough
+//@ tier: quick
 #[kani::proof]
 fn c06_cell_cl_max_te_chunked() {
     c06_case(Some("18446744073709551615"), Some("chunked"));
 }
 
 //@ like: c06_cell_cl_absent_te_absent
-//@ tier: thorough
+//@ tier: quick
 #[kani::proof]
 fn c06_cell_cl_max_te_mixedcase() {
     c06_case(Some("18446744073709551615"), Some("Chunked"));
 }
 
 //@ like: c06_cell_cl_absent_te_absent
-//@ tier: thorough
+//@ tier: quick
 #[kani::proof]
 fn c06_cell_cl_max_te_list() {
     c06_case(Some("18446744073709551615"), Some("gzip, chunked"));
 }
 
 //@ like: c06_cell_cl_absent_te_absent
-//@ tier: thorough
+//@ tier: quick
 #[kani::proof]
 fn c06_cell_cl_max_te_listspace() {
     c06_case(Some("18446744073709551615"), Some("gzip,chunked "));
 }
 
 //@ like: c06_cell_cl_absent_te_absent
-//@ tier: thorough
+//@ tier: quick
 #[kani::proof]
 fn c06_cell_cl_max_te_gzip() {
     c06_case(Some("18446744073709551615"), Some("gzip"));
 }
 
 //@ like: c06_cell_cl_absent_te_absent
-//@ tier: thorough
+//@ tier: quick
 #[kani::proof]
 fn c06_cell_cl_max_te_chunkedx() {
     c06_case(Some("18446744073709551615"), Some("chunkedx"));
@@ -821,42 +821,42 @@ fn c06_cell_cl_overflow_te_absent() {
 }
 
 //@ like: c06_cell_cl_absent_te_absent
-//@ tier: thorough
+//@ tier: quick
 #[kani::proof]
 fn c06_cell_cl_overflow_te_chunked() {
     c06_case(Some("18446744073709551616"), Some("chunked"));
 }
 
 //@ like: c06_cell_cl_absent_te_absent
-//@ tier: thorough
+//@ tier: quick
 #[kani::proof]
 fn c06_cell_cl_overflow_te_mixedcase() {
     c06_case(Some("18446744073709551616"), Some("Chunked"));
 }
 
 //@ like: c06_cell_cl_absent_te_absent
-//@ tier: thorough
+//@ tier: quick
 #[kani::proof]
 fn c06_cell_cl_overflow_te_list() {
     c06_case(Some("18446744073709551616"), Some("gzip, chunked"));
 }
 
 //@ like: c06_cell_cl_absent_te_absent
-//@ tier: thorough
+//@ tier: quick
 #[kani::proof]
 fn c06_cell_cl_overflow_te_listspace() {
     c06_case(Some("18446744073709551616"), Some("gzip,chunked "));
 }
 
 //@ like: c06_cell_cl_absent_te_absent
-//@ tier: thorough
+//@ tier: quick
 #[kani::proof]
 fn c06_cell_cl_overflow_te_gzip() {
     c06_case(Some("18446744073709551616"), Some("gzip"));
 }
 
 //@ like: c06_cell_cl_absent_te_absent
-//@ tier: thorough
+//@ tier: quick
 #[kani::proof]
 fn c06_cell_cl_overflow_te_chunkedx() {
     c06_case(Some("18446744073709551616"), Some("chunkedx"));
@@ -870,49 +870,49 @@ fn c06_cell_cl_x_te_absent() {
 }
 
 //@ like: c06_cell_cl_absent_te_absent
-//@ tier: thorough
+//@ tier: quick
 #[kani::proof]
 fn c06_cell_cl_x_te_chunked() {
     c06_case(Some("x"), Some("chunked"));
 }
 
 //@ like: c06_cell_cl_absent_te_absent
-//@ tier: thorough
+//@ tier: quick
 #[kani::proof]
 fn c06_cell_cl_x_te_mixedcase() {
     c06_case(Some("x"), Some("Chunked"));
 }
 
 //@ like: c06_cell_cl_absent_te_absent
-//@ tier: thorough
+//@ tier: quick
 #[kani::proof]
 fn c06_cell_cl_x_te_list() {
     c06_case(Some("x"), Some("gzip, chunked"));
 }
 
 //@ like: c06_cell_cl_absent_te_absent
-//@ tier: thorough
+//@ tier: quick
 #[kani::proof]
 fn c06_cell_cl_x_te_listspace() {
     c06_case(Some("x"), Some("gzip,chunked "));
 }
 
 //@ like: c06_cell_cl_absent_te_absent
-//@ tier: thorough
+//@ tier: quick
 #[kani::proof]
 fn c06_cell_cl_x_te_gzip() {
     c06_case(Some("x"), Some("gzip"));
 }
 
 //@ like: c06_cell_cl_absent_te_absent
-//@ tier: thorough
+//@ tier: quick
 #[kani::proof]
 fn c06_cell_cl_x_te_chunkedx() {
     c06_case(Some("x"), Some("chunkedx"));
 }
 
 //@ like: c06_cell_cl_absent_te_absent
-//@ tier: thorough
+//@ tier: quick
 #[kani::proof]
 fn c06_cell_cl_neg_te_absent() {
     c06_case(Some("-1"), None);
@@ -926,84 +926,84 @@ fn c06_cell_cl_neg_te_chunked() {
 }
 
 //@ like: c06_cell_cl_absent_te_absent
-//@ tier: thorough
+//@ tier: quick
 #[kani::proof]
 fn c06_cell_cl_neg_te_mixedcase() {
     c06_case(Some("-1"), Some("Chunked"));
 }
 
 //@ like: c06_cell_cl_absent_te_absent
-//@ tier: thorough
+//@ tier: quick
 #[kani::proof]
 fn c06_cell_cl_neg_te_list() {
     c06_case(Some("-1"), Some("gzip, chunked"));
 }
 
 //@ like: c06_cell_cl_absent_te_absent
-//@ tier: thorough
+//@ tier: quick
 #[kani::proof]
 fn c06_cell_cl_neg_te_listspace() {
     c06_case(Some("-1"), Some("gzip,chunked "));
 }
 
 //@ like: c06_cell_cl_absent_te_absent
-//@ tier: thorough
+//@ tier: quick
 #[kani::proof]
 fn c06_cell_cl_neg_te_gzip() {
     c06_case(Some("-1"), Some("gzip"));
 }
 
 //@ like: c06_cell_cl_absent_te_absent
-//@ tier: thorough
+//@ tier: quick
 #[kani::proof]
 fn c06_cell_cl_neg_te_chunkedx() {
     c06_case(Some("-1"), Some("chunkedx"));
 }
 
 //@ like: c06_cell_cl_absent_te_absent
-//@ tier: thorough
+//@ tier: quick
 #[kani::proof]
 fn c06_cell_cl_space7_te_absent() {
     c06_case(Some(" 7"), None);
 }
 
 //@ like: c06_cell_cl_absent_te_absent
-//@ tier: thorough
+//@ tier: quick
 #[kani::proof]
 fn c06_cell_cl_space7_te_chunked() {
     c06_case(Some(" 7"), Some("chunked"));
 }
 
 //@ like: c06_cell_cl_absent_te_absent
-//@ tier: thorough
+//@ tier: quick
 #[kani::proof]
 fn c06_cell_cl_space7_te_mixedcase() {
     c06_case(Some(" 7"), Some("Chunked"));
 }
 
 //@ like: c06_cell_cl_absent_te_absent
-//@ tier: thorough
+//@ tier: quick
 #[kani::proof]
 fn c06_cell_cl_space7_te_list() {
     c06_case(Some(" 7"), Some("gzip, chunked"));
 }
 
 //@ like: c06_cell_cl_absent_te_absent
-//@ tier: thorough
+//@ tier: quick
 #[kani::proof]
 fn c06_cell_cl_space7_te_listspace() {
     c06_case(Some(" 7"), Some("gzip,chunked "));
 }
 
 //@ like: c06_cell_cl_absent_te_absent
-//@ tier: thorough
+//@ tier: quick
 #[kani::proof]
 fn c06_cell_cl_space7_te_gzip() {
     c06_case(Some(" 7"), Some("gzip"));
 }
 
 //@ like: c06_cell_cl_absent_te_absent
-//@ tier: thorough
+//@ tier: quick
 #[kani::proof]
 fn c06_cell_cl_space7_te_chunkedx() {
     c06_case(Some(" 7"), Some("chunkedx"));
